@@ -120,7 +120,9 @@ class FrameItem(EFLRItem):
                                    f"for {index_channel} of {self}")
             spacing, direction = self._compute_spacing_and_direction(index_data)
 
-            if spacing is None:
+            if index_data.shape[0] < 2:
+                pass  # a single row; spacing and direction are not defined (and not needed)
+            elif spacing is None:
                 # spacing cannot be used because it is not uniform enough; using only direction - if available
                 m = (f"Spacing of the index channel of {self} is not uniform; this can cause issues in some viewer "
                      f"software. Consider implicit indexing by row number number instead "
@@ -143,7 +145,10 @@ class FrameItem(EFLRItem):
             If direction cannot be determined, it is assigned to None.
         """
 
-        diff = np.diff(index_data)
+        # the differences are computed on float64 values: differences of unsigned or narrow integers would wrap around
+        diff = np.diff(index_data.astype(np.float64))
+        if not diff.size:
+            return None, None  # a single row - no differences, so neither spacing nor direction can be determined
         diff_unique = np.unique(diff)
 
         if (diff_unique == 0).all():
